@@ -8,7 +8,9 @@ SPEC = dict(
          "non-trivial when strict and behind (appended time set, FSM index != command commit index, freshness set); "
          "dispatch: every combination of role {leader, follower voter, non-voter} x entry {Query, Request read-only, Request write, Request mixed} x 5 levels x "
          "6 freshness/strict steerings, plus first-read-in-term and not-ready variants (540 live calls on a 3 voters + 1 non-voter in-process cluster), "
-         "non-trivial when the serving node is a follower or a non-voter; distinct by input JSON",
+         "then role histories: one non-leader node changes role while running (removed and re-joined as voter / non-voter, promoted / demoted in place via Join; 9 changes quick, 12 histories thorough) "
+         "with a battery of 21 calls (3 entry forms x auto/weak/none/linearizable x 2 freshness settings) before and after every change, judged against its current role; "
+         "non-trivial when the serving node is not the leader; distinct by input JSON (incl. the role history)",
     exhaustive=True,
     trusted=["hashicorp/raft State/VerifyLeader/LastContact/GetConfiguration are observed, not modelled",
              "the driver's projection of a live call: error class, raft log growth on the node, reported level, strongReadTerm, verify counters",
